@@ -3,10 +3,14 @@ package main
 import (
 	"fmt"
 	"math/rand/v2"
+	"os"
+	"path/filepath"
 	"strings"
+	"time"
 
 	"github.com/pgavlin/dawn/diff"
 	"github.com/pgavlin/dawn/verifharness/core"
+	"github.com/pgavlin/dawn/verifharness/pj"
 	"github.com/pgavlin/dawn/verifharness/sval"
 	"go.starlark.net/starlark"
 )
@@ -501,4 +505,84 @@ func runC16(c *core.Ctx) {
 		c16Check(c, fmt.Sprintf("big/%d", i), mk(na, mod), mk(nb, mod))
 	}
 	_ = sval.Describe
+
+	// 4. the rebuild reason on generated project edits (journaled children)
+	var ids []string
+	for i := 0; i < c.N(60, 2000); i++ {
+		if id := fmt.Sprintf("proj/%d", i); c.Want(id) {
+			ids = append(ids, id)
+		}
+	}
+	c.RunSharded(ids, core.ShardOpts{Mode: "c16proj", Workers: 10, Timeout: 20 * time.Minute})
+}
+
+// ---- the rebuild reason shown for a target --------------------------------------------------
+
+var envKeyOrder = []string{"names", "constant values", "predeclared values", "universal values", "function values", "global values", "default parameter values", "free variables", "code"}
+
+func expectedReason(diffKeys []string) string {
+	var reasons []string
+	for _, k := range envKeyOrder {
+		for _, d := range diffKeys {
+			if d == k {
+				reasons = append(reasons, k)
+			}
+		}
+	}
+	switch len(reasons) {
+	case 0:
+		return "function environment changed"
+	case 1:
+		return reasons[0] + " changed"
+	case 2:
+		return reasons[0] + " and " + reasons[1] + " changed"
+	}
+	return strings.Join(reasons[:len(reasons)-1], ", ") + ", and " + reasons[len(reasons)-1] + " changed"
+}
+
+func init() { registerCase("c16proj", c16ProjCase) }
+
+// c16ProjCase: edits that touch parts of a function's environment; the reason of every
+// TargetEvaluating event that carries a diff must name exactly the keys whose old/new values differ
+// (recomputed from the Old()/New() dicts of the delivered diff).
+func c16ProjCase(c *core.Ctx, id string) {
+	g := &pj.Gen{R: c.Rand(id)}
+	dir := filepath.Join(c.Scratch, fmt.Sprintf("c16p-%d", os.Getpid()))
+	os.RemoveAll(dir)
+	defer os.RemoveAll(dir)
+	s := pj.NewSession(dir)
+	e := pj.NewEngine(s, g.Project(), g)
+	e.Build("//:all", pj.BuildOpt{})
+	for step := 0; step < 8; step++ {
+		kinds := []string{"atom-lit", "atom-lit", "atom-default", "tgt-extra", "const-add", "flag", "dep-add"}
+		n := 1 + g.R.IntN(2)
+		var applied []string
+		for k := 0; k < n; k++ {
+			kind := kinds[g.R.IntN(len(kinds))]
+			if e.Edit(kind) {
+				applied = append(applied, kind)
+			}
+		}
+		_, res, _ := e.Build("//:all", pj.BuildOpt{})
+		for _, ev := range res.Events {
+			if ev.Kind != "TargetEvaluating" || strings.HasPrefix(ev.Label, "source:") {
+				continue
+			}
+			c.Eval("")
+			if !ev.HasDiff {
+				c.Count("reasons_without_diff", 1)
+				continue
+			}
+			c.Count("reasons_with_diff", 1)
+			for _, k := range ev.DiffKeys {
+				c.Count("differing_part:"+k, 1)
+			}
+			c.Distinct(fmt.Sprintf("%s/%d/%s", id, step, ev.Label))
+			if want := expectedReason(ev.DiffKeys); ev.Reason != want {
+				c.Violation(id, "", "rebuild-reason-does-not-name-the-differing-parts", map[string]any{"label": ev.Label, "reason": ev.Reason, "parts_that_differ": ev.DiffKeys, "expected_reason": want, "edits": applied, "history": e.Script()})
+				return
+			}
+			c.SampleKey("reason", map[string]any{"case": id, "label": ev.Label, "edits": applied, "reason": ev.Reason})
+		}
+	}
 }
